@@ -140,18 +140,31 @@ def r13a(run, F):
     f = run.repo.func(GEN, "JsonSchemaGenerator.generate_for_rule")
     fa = analysis(f)
     ok = False
-    for n_ in fa.cfg.nodes:
-        if n_.kind == "stmt" and isinstance(n_.ast, ast.Assign) and isinstance(n_.ast.targets[0], ast.Subscript) \
-                and unparse(n_.ast.targets[0].value) == "data" and unparse(n_.ast.value) == "value":
-            key = n_.ast.targets[0].slice
-            kdefs = prov(fa).of_expr(n_, key)
-            ok = any(o.kind == "call" and call_attr(o.node) == "get" and "constrains_map" in unparse(o.node.func.value)
-                     and len(o.node.args) == 2 and unparse(o.node.args[0]) == unparse(o.node.args[1]) for o in kdefs)
+    # roles: the loop over t.__validators__ binds (constraint, value, validator); the emission stores the value element
+    # under a key that is looked up by the constraint element with itself as the fallback
+    vloops = [m for m in fa.cfg.nodes if m.kind == "iter" and "__validators__" in unparse(m.ast)
+              and isinstance(m.stmt, ast.For) and isinstance(m.stmt.target, ast.Tuple) and len(m.stmt.target.elts) >= 2]
+    for m in vloops:
+        cons_v, val_v = unparse(m.stmt.target.elts[0]), unparse(m.stmt.target.elts[1])
+        for n_ in fa.cfg.nodes:
+            if n_.kind == "stmt" and isinstance(n_.ast, ast.Assign) and isinstance(n_.ast.targets[0], ast.Subscript) \
+                    and unparse(n_.ast.value) == val_v and fa.cfg.dominates(m, n_):
+                key = n_.ast.targets[0].slice
+                kdefs = prov(fa).of_expr(n_, key)
+                ok = ok or any(o.kind == "call" and call_attr(o.node) == "get" and len(o.node.args) == 2
+                               and unparse(o.node.args[0]) == cons_v and unparse(o.node.args[1]) == cons_v for o in kdefs)
     run.check("R13a", f, "each validator is emitted as data[<keyword of its constraint>] = <its value>", ok,
               construct="constraint emission", message="generate_for_rule no longer emits data[map.get(constraint, "
               "constraint)] = value", necessity="constraints are published under another name or with another value")
+    # the selection test `<primitive local> in <key of the TYPE_CONSTRAINTS_MAP loop>`
+    tloops = [m for m in fa.cfg.nodes if m.kind == "iter" and "TYPE_CONSTRAINTS_MAP" in unparse(m.ast)
+              and isinstance(m.stmt, ast.For) and isinstance(m.stmt.target, ast.Tuple)]
+    tkeys = {unparse(m.stmt.target.elts[0]) for m in tloops}
     sel = [n_ for n_ in fa.cfg.nodes if n_.kind == "test" and isinstance(n_.ast, ast.Compare)
-           and isinstance(n_.ast.ops[0], ast.In) and unparse(n_.ast.left) == "primitive"]
+           and isinstance(n_.ast.ops[0], ast.In) and isinstance(n_.ast.left, ast.Name)
+           and unparse(n_.ast.comparators[0]) in tkeys
+           and any("primitive" in unparse(d.ast.value).lower() or "'type'" in unparse(d.ast.value)
+                   for d in fa.rd.defs_of(n_, n_.ast.left.id) if d.kind == "stmt" and isinstance(d.ast, ast.Assign))]
     run.check("R13a", f, "the keyword map is selected by the rule's primitive", bool(sel), construct="keyword map choice",
               message="generate_for_rule does not select the keyword map with `primitive in types`")
 
@@ -184,17 +197,23 @@ def r13b(run):
                                     "no_input field is announced as accepted", node=sub)
     run.floor("R13b", "view-specific predicate uses in generate_for_field", uses, 2)
     # type selection: output_type under self.output, type otherwise
+    FP = f.params[1] if len(f.params) > 1 else "f"      # the field parameter
     sel = [n for n in fa.cfg.nodes if n.kind == "stmt" and isinstance(n.ast, ast.Assign)
-           and unparse(n.ast.targets[0]) == "t" and isinstance(n.ast.value, ast.IfExp)]
-    ok = bool(sel) and unparse(sel[0].ast.value.test) == "self.output" and unparse(sel[0].ast.value.body) == "f.output_type" \
-        and unparse(sel[0].ast.value.orelse) == "f.type"
+           and isinstance(n.ast.targets[0], ast.Name) and isinstance(n.ast.value, ast.IfExp)
+           and unparse(n.ast.value.test) == "self.output"]
+    ok = bool(sel) and unparse(sel[0].ast.value.body) == f"{FP}.output_type" and unparse(sel[0].ast.value.orelse) == f"{FP}.type"
+    if ok:
+        # the selected type is what the schema is generated from
+        tv = sel[0].ast.targets[0].id
+        ok = any(call_attr(c) == "generate_for_type" and c.args and unparse(c.args[0]) == tv for n, c in fa.all_calls())
     run.check("R13b", f, "the field's schema is generated from output_type in the output view and type otherwise", ok,
               construct="field type view", message="generate_for_field does not select f.output_type / f.type by self.output",
               necessity="the output schema describes the input type of a field whose output type differs")
     g = run.repo.func(GEN, "JsonSchemaGenerator.generate_for_dataclass")
     ga = analysis(g)
+    PARSER, DATA, OPTS = _dc_roles(ga)
     sw = [n for n in ga.cfg.nodes if n.kind == "stmt" and isinstance(n.ast, ast.Assign)
-          and unparse(n.ast.targets[0]) == "options" and "output_options" in unparse(n.ast.value)]
+          and unparse(n.ast.targets[0]) == OPTS and "output_options" in unparse(n.ast.value)]
     ok = bool(sw) and all(("self.output", True) in _facts(ga, n) for n in sw)
     run.check("R13b", g, "output_options replace the options only in the output view", ok, construct="options view",
               message="generate_for_dataclass applies parser.output_options outside the self.output branch (or never)",
@@ -207,13 +226,34 @@ def r13b(run):
               necessity="the input schema demands fields the parser fills in itself")
 
 
+def _dc_roles(ga):
+    """locals of generate_for_dataclass by role: (the class parser, the document under construction, the view's options)"""
+    parser = data = opts = None
+    for n in ga.cfg.nodes:
+        if n.kind == "stmt" and isinstance(n.ast, (ast.Assign, ast.AnnAssign)) and n.ast.value is not None:
+            tg = n.ast.targets[0] if isinstance(n.ast, ast.Assign) else n.ast.target
+            if isinstance(tg, ast.Name) and "__parser__" in unparse(n.ast.value) and parser is None:
+                parser = tg.id
+    for n, c in ga.all_calls():
+        if call_attr(c) == "update" and isinstance(c.func.value, ast.Name) and any(k.arg == "properties" for k in c.keywords):
+            data = c.func.value.id
+    for n in ga.cfg.nodes:
+        if n.kind == "stmt" and isinstance(n.ast, ast.Assign) and isinstance(n.ast.targets[0], ast.Name) \
+                and parser and unparse(n.ast.value) == f"{parser}.options":
+            opts = n.ast.targets[0].id
+    if not (parser and data and opts):
+        raise AnalysisError(f"generate_for_dataclass: roles not found (parser={parser}, document={data}, options={opts})")
+    return parser, data, opts
+
+
 def r13c(run):
     g = run.repo.func(GEN, "JsonSchemaGenerator.generate_for_dataclass")
     ga = analysis(g)
-    loops = [n for n in ga.cfg.nodes if n.kind == "iter" and "parser.fields" in unparse(n.ast)]
+    PARSER, DATA, OPTS = _dc_roles(ga)
+    loops = [n for n in ga.cfg.nodes if n.kind == "iter" and f"{PARSER}.fields" in unparse(n.ast)]
     if not loops:
         raise AnalysisError("generate_for_dataclass: loop over parser.fields not found")
-    if unparse(loops[0].ast) != "parser.fields.items()":
+    if unparse(loops[0].ast) != f"{PARSER}.fields.items()":
         run.check("R13c", g, "every declared field is considered for the schema", False, construct="field loop domain",
                   message=f"generate_for_dataclass iterates `{unparse(loops[0].ast)}` instead of parser.fields.items()",
                   necessity="fields missing from the iteration are missing from properties / required")
@@ -222,7 +262,7 @@ def r13c(run):
     # the published containers are found by role: data.update(required=<R>, properties=<P>, dependentRequired=<D>)
     published = {}
     for n, c in ga.all_calls():
-        if call_attr(c) == "update" and unparse(c.func.value) == "data":
+        if call_attr(c) == "update" and unparse(c.func.value) == DATA:
             for kw in c.keywords:
                 if kw.arg in ("required", "properties", "dependentRequired") and isinstance(kw.value, ast.Name):
                     published[kw.arg] = kw.value.id
@@ -270,10 +310,12 @@ def r13c(run):
                   message=f"`{unparse(c)}` can run for a field that generate_for_field excluded from the view",
                   necessity="`required` names a property absent from `properties`: every instance fails validation", node=c)
     # is_required receives the same options as the field view
+    def opt_like(a):
+        return a.split(" ")[0] == OPTS
     for n, c in ga.all_calls():
         if call_attr(c) == "is_required":
             a = unparse(c.args[0]) if c.args else unparse(kwarg(c, "options"))
-            run.check("R13c", g, "is_required is asked with the view's options", a.startswith("options"),
+            run.check("R13c", g, "is_required is asked with the view's options", (a.startswith(OPTS) or opt_like(a)),
                       construct="is_required options", message=f"`{unparse(c)}` does not pass the view's options",
                       necessity="mode / ignore_required of the class are ignored when computing `required`", node=c)
     dep = [n for n in ga.cfg.nodes if n.kind == "stmt" and isinstance(n.ast, ast.Assign)
@@ -304,7 +346,7 @@ def r13c(run):
                       necessity="Field(default=3, defer_default=True): the output schema requires the key, the parsed "
                                 "instance does not contain it until the attribute is read: the output fails validation",
                       node=c)
-    upd = {kw.arg for n, c in ga.all_calls() if call_attr(c) == "update" and unparse(c.func.value) == "data"
+    upd = {kw.arg for n, c in ga.all_calls() if call_attr(c) == "update" and unparse(c.func.value) == DATA
            for kw in c.keywords}
     for kw in ("properties", "required", "dependentRequired"):
         run.check("R13c", g, f"`{kw}` is published", kw in upd, construct=f"{kw} not published",
@@ -314,12 +356,13 @@ def r13c(run):
 def r13d(run):
     g = run.repo.func(GEN, "JsonSchemaGenerator.generate_for_dataclass")
     ga = analysis(g)
-    sites = [(n, c, kw) for n, c in ga.all_calls() if call_attr(c) == "update" and unparse(c.func.value) == "data"
+    PARSER, DATA, OPTS = _dc_roles(ga)
+    sites = [(n, c, kw) for n, c in ga.all_calls() if call_attr(c) == "update" and unparse(c.func.value) == DATA
              for kw in c.keywords if kw.arg == "additionalProperties"]
     run.floor("R13d", "additionalProperties emissions", len(sites), 2)
     src = [n for n in ga.cfg.nodes if n.kind == "stmt" and isinstance(n.ast, ast.Assign)
            and isinstance(n.ast.targets[0], ast.Name) and unparse(n.ast.value).endswith(".addition")]
-    ok = bool(src) and all(unparse(n.ast.value) == "options.addition" for n in src)
+    ok = bool(src) and all(unparse(n.ast.value) == f"{OPTS}.addition" for n in src)
     run.check("R13d", g, "the addition policy is read from the view's options", ok, construct="addition source",
               message="generate_for_dataclass does not read `options.addition`",
               necessity="additionalProperties reflects another object's policy")
@@ -428,17 +471,30 @@ def r13f(run):
     fa = analysis(f)
     want = [("tuple", True, "items"), ("tuple", False, "prefixItems"), ("SEQ_TYPES", None, "items"),
             ("MAP_TYPES", None, "patternProperties")]
+    # roles: the keyword local is the one used as the key of the returned one-entry dicts; the origin local is bound to
+    # `<rule>.__origin__`; the rule is the parameter
+    RP = f.params[1] if len(f.params) > 1 else "r"
+    knames = {unparse(n.ast.value.keys[0]) for n in fa.cfg.nodes if n.kind == "stmt" and isinstance(n.ast, ast.Return)
+              and isinstance(n.ast.value, ast.Dict) and len(n.ast.value.keys) == 1 and isinstance(n.ast.value.keys[0], ast.Name)}
+    onames = {n.ast.targets[0].id for n in fa.cfg.nodes if n.kind == "stmt" and isinstance(n.ast, ast.Assign)
+              and isinstance(n.ast.targets[0], ast.Name) and unparse(n.ast.value) == f"{RP}.__origin__"}
+    if len(onames) != 1:
+        raise AnalysisError(f"R13f: _get_args has no single origin local (found {sorted(onames)})")
+    ORI = sorted(onames)[0]
+    ares = {n.ast.targets[0].id for n in fa.cfg.nodes if n.kind == "stmt" and isinstance(n.ast, ast.Assign)
+            and isinstance(n.ast.targets[0], ast.Name) and isinstance(n.ast.value, ast.ListComp)
+            and "generate_for_type" in unparse(n.ast.value)}
     assigns = [n for n in fa.cfg.nodes if n.kind == "stmt" and isinstance(n.ast, ast.Assign)
-               and unparse(n.ast.targets[0]) == "name" and isinstance(n.ast.value, ast.Constant)]
+               and unparse(n.ast.targets[0]) in knames and isinstance(n.ast.value, ast.Constant)]
     run.floor("R13f", "container keyword choices", len(assigns), 4)
     found = set()
     for n in assigns:
         fs = _facts(fa, n)
         kw = n.ast.value.value
-        is_tuple = ("issubclass(origin, tuple)", True) in fs
-        ell = ("r.__ellipsis_args__", True) in fs
-        seq = ("issubclass(origin, SEQ_TYPES)", True) in fs
-        mp = ("issubclass(origin, MAP_TYPES)", True) in fs
+        is_tuple = (f"issubclass({ORI}, tuple)", True) in fs
+        ell = (f"{RP}.__ellipsis_args__", True) in fs
+        seq = (f"issubclass({ORI}, SEQ_TYPES)", True) in fs
+        mp = (f"issubclass({ORI}, MAP_TYPES)", True) in fs
         if is_tuple and ell:
             key = ("tuple", True)
         elif is_tuple:
@@ -463,12 +519,12 @@ def r13f(run):
     for n in rets:
         v = n.ast.value.values[0]
         fs = _facts(fa, n)
-        if ("issubclass(origin, tuple)", True) in fs and ("r.__ellipsis_args__", False) in fs:
-            ok = unparse(v) == "args_res"
-        elif ("issubclass(origin, MAP_TYPES)", True) in fs:
+        if (f"issubclass({ORI}, tuple)", True) in fs and (f"{RP}.__ellipsis_args__", False) in fs:
+            ok = unparse(v) in ares
+        elif (f"issubclass({ORI}, MAP_TYPES)", True) in fs:
             ok = isinstance(v, ast.Dict)
         else:
-            ok = unparse(v) == "args_res[0]"
+            ok = isinstance(v, ast.Subscript) and unparse(v.value) in ares and unparse(v.slice) == "0"
         run.check("R13f", f, f"`{norm_stmt(n.ast)[:50]}` carries the right argument schemas", ok,
                   construct="container value", message=f"`{norm_stmt(n.ast)}` publishes the wrong argument schemas",
                   node=n.ast)
